@@ -97,8 +97,10 @@ class Gen:
             return E("prepremove")
         if x < 0.62:
             return E("close")
-        if x < 0.68:
+        if x < 0.66:
             return E("open")
+        if x < 0.68:
+            return E("getrevfail")
         if x < 0.70:
             return E("openfail")
         if x < 0.75:
@@ -192,6 +194,19 @@ def openfail_cases():
     return out
 
 
+def getrevfail_cases():
+    """a failing read of the counter block (GetRevisionCounter answers -1) followed by writes, promotion, reopen:
+    the cached and the persisted counter keep counting from the old value"""
+    out = []
+    base = [E("create"), E("open"), E("setmode", mode="RW")] + [E("write", id=i) for i in range(1, 5)]
+    for tail in ([E("write", id=9)], [E("write", id=9), E("close"), E("open"), E("setmode", mode="RW"), E("write", id=10)],
+                 [E("snapshot"), E("write", id=9)], [E("setrev", v=3), E("write", id=9)], [E("getrevfail"), E("crash"), E("open")],
+                 [E("setmode", mode="WO"), E("write", id=9), E("setmode", mode="RW"), E("write", id=10)]):
+        out.append(base + [E("getrevfail")] + tail)
+    out.append([E("create"), E("getrevfail"), E("open"), E("getrevfail"), E("setmode", mode="RW"), E("write", id=1)])
+    return out
+
+
 def writefail_cases():
     """a write whose data write fails in the file system (every mode, clean and dirty, before and after good
     writes, followed by reopen / crash): refused, nothing applied, counter (memory and disk) unchanged"""
@@ -235,7 +250,7 @@ MODE = {"RW": "RW", "WO": "WO", "INIT": "INIT", "CLOSED": "CLOSED"}
 STATE = {"initial": "SInitial", "open": "SOpen", "closed": "SClosed", "dirty": "SDirty",
          "rebuilding": "SRebuilding", "error": "SError"}
 ACT = {a: "A" + a[0].upper() + a[1:] for a in ACTIONS}
-ENG = {"openfail": "OOpenFail", "closefail": "OCloseFail", "create": "OCreate", "open": "OOpen", "close": "OClose", "crash": "OCrash", "read": "ORead",
+ENG = {"getrevfail": "OGetRevFail", "openfail": "OOpenFail", "closefail": "OCloseFail", "create": "OCreate", "open": "OOpen", "close": "OClose", "crash": "OCrash", "read": "ORead",
        "snapshot": "OSnapshot", "remove": "ORemove", "prepremove": "OPrepRemove", "reload": "OReload",
        "revert": "ORevert", "setcheckpoint": "OSetCheckpoint"}
 
